@@ -997,6 +997,17 @@ func (w *World) errDropSites() []errDropSite {
 					}
 				}
 				if used {
+					// tested and then tolerated: the `err != nil` side rejoins the normal flow (or
+					// ends in success) instead of failing
+					if pos, tolerated := w.errTolerated(fn, call, nres); tolerated {
+						base := fnShort(fn) + ":tolerates(" + name + ")"
+						count[base]++
+						key := base
+						if count[base] > 1 {
+							key = fmt.Sprintf("%s#%d", base, count[base])
+						}
+						out = append(out, errDropSite{Fn: fnShort(fn), Callee: name, Pos: pos, Key: key})
+					}
 					continue
 				}
 				base := fnShort(fn) + ":drops(" + name + ")"
@@ -1010,6 +1021,149 @@ func (w *World) errDropSites() []errDropSite {
 		}
 	}
 	return out
+}
+
+// errTolerated: the error result of call is tested against nil in fn and the non-nil side of
+// that test neither returns a failure, nor panics/exits, nor hands the error on (stores it,
+// passes it to a non-logging call, returns it): it logs at most and carries on.
+func (w *World) errTolerated(fn *ssa.Function, call *ssa.Call, nres int) (token.Pos, bool) {
+	var errV ssa.Value = call
+	if nres > 1 {
+		errV = nil
+		for _, r := range *call.Referrers() {
+			if ex, ok := r.(*ssa.Extract); ok && ex.Index == nres-1 {
+				errV = ex
+			}
+		}
+	}
+	if errV == nil || errV.Referrers() == nil {
+		return token.NoPos, false
+	}
+	// every use is either the nil test or a logging call; anything else hands the error on
+	var tests []*ssa.BinOp
+	for _, r := range *errV.Referrers() {
+		switch x := r.(type) {
+		case *ssa.BinOp:
+			if (x.Op == token.NEQ || x.Op == token.EQL) && (isNilConst(x.X) || isNilConst(x.Y)) {
+				tests = append(tests, x)
+				continue
+			}
+			return token.NoPos, false
+		case *ssa.DebugRef:
+			continue
+		case ssa.CallInstruction:
+			if n := calleeName(x); strings.HasPrefix(n, "infrastructure/logger.") || strings.HasPrefix(n, "log.") {
+				continue
+			}
+			return token.NoPos, false
+		case *ssa.MakeInterface, *ssa.ChangeInterface:
+			// boxed for a variadic logging call?
+			xv := x.(ssa.Value)
+			onlyLogged := xv.Referrers() != nil
+			if onlyLogged {
+				for _, rr := range *xv.Referrers() {
+					if !w.flowsOnlyToLog(rr, 0) {
+						onlyLogged = false
+					}
+				}
+			}
+			if onlyLogged {
+				continue
+			}
+			return token.NoPos, false
+		default:
+			return token.NoPos, false
+		}
+	}
+	if len(tests) == 0 {
+		return token.NoPos, false
+	}
+	for _, t := range tests {
+		if t.Referrers() == nil {
+			continue
+		}
+		for _, r := range *t.Referrers() {
+			ifi, ok := r.(*ssa.If)
+			if !ok {
+				return token.NoPos, false // the test's outcome is data (stored, returned): not judged here
+			}
+			nonNil := ifi.Block().Succs[0]
+			if t.Op == token.EQL {
+				nonNil = ifi.Block().Succs[1]
+			}
+			// does the non-nil side fail? every path from it must end in a failure exit / panic
+			seen := map[*ssa.BasicBlock]bool{}
+			work := []*ssa.BasicBlock{nonNil}
+			for len(work) > 0 {
+				b := work[len(work)-1]
+				work = work[:len(work)-1]
+				if seen[b] {
+					continue
+				}
+				seen[b] = true
+				if !nonNil.Dominates(b) {
+					return t.Pos(), true // rejoined the normal flow
+				}
+				switch last := b.Instrs[len(b.Instrs)-1].(type) {
+				case *ssa.Return:
+					for _, ex := range exitsOf(fn) {
+						if ex.Ret == last && ex.Kind == exitSuccess {
+							return t.Pos(), true
+						}
+					}
+					if errResultIndex(fn) < 0 {
+						return t.Pos(), true // nothing to report the failure through
+					}
+				case *ssa.Panic:
+				default:
+					exits := false
+					for _, in := range b.Instrs {
+						if c, ok := in.(ssa.CallInstruction); ok {
+							if n := calleeName(c); n == "os.Exit" || n == "infrastructure/logger.Fatal" || n == "log.Fatal" || n == "log.Fatalf" {
+								exits = true
+							}
+						}
+					}
+					if !exits {
+						work = append(work, b.Succs...)
+					}
+				}
+			}
+		}
+	}
+	return token.NoPos, false
+}
+
+// flowsOnlyToLog: instruction r (a user of a boxed error) only feeds a logging call.
+func (w *World) flowsOnlyToLog(r ssa.Instruction, depth int) bool {
+	if depth > 4 {
+		return false
+	}
+	switch x := r.(type) {
+	case ssa.CallInstruction:
+		n := calleeName(x)
+		return strings.HasPrefix(n, "infrastructure/logger.") || strings.HasPrefix(n, "log.")
+	case *ssa.Store:
+		// stored into the varargs array of a call
+		if ia, ok := x.Addr.(*ssa.IndexAddr); ok {
+			if al, ok := ia.X.(*ssa.Alloc); ok && al.Referrers() != nil {
+				for _, rr := range *al.Referrers() {
+					if sl, ok := rr.(*ssa.Slice); ok && sl.Referrers() != nil {
+						for _, r3 := range *sl.Referrers() {
+							if !w.flowsOnlyToLog(r3, depth+1) {
+								return false
+							}
+						}
+					}
+				}
+				return true
+			}
+		}
+		return false
+	case *ssa.DebugRef:
+		return true
+	}
+	return false
 }
 
 // closureSelfCall: inside closure fn, callee is a load of a captured variable into which
